@@ -198,8 +198,13 @@ fn gen_tree(t: &mut Tape) -> Vec<FileSpec> {
         // prefer files that contain the needle (their block then carries a
         // binary-file notice), top-level ones first (with Root::Multi they are
         // named on the command line and searched in "convert" mode)
-        let mut cands: Vec<usize> =
-            (0..files.len()).filter(|&i| files[i].lines >= 2 && files[i].hit_every > 0 && !files[i].path.contains('/')).collect();
+        // (half of the time; otherwise files below a directory, which are
+        // found by traversal and searched in "quit" mode — the two modes are
+        // per-file state of each worker's searcher)
+        let prefer_top = t.bool();
+        let mut cands: Vec<usize> = (0..files.len())
+            .filter(|&i| files[i].lines >= 2 && files[i].hit_every > 0 && files[i].path.contains('/') != prefer_top)
+            .collect();
         if cands.is_empty() {
             cands = (0..files.len()).filter(|&i| files[i].lines >= 2 && files[i].hit_every > 0).collect();
         }
@@ -207,8 +212,11 @@ fn gen_tree(t: &mut Tape) -> Vec<FileSpec> {
             cands = (0..files.len()).filter(|&i| files[i].lines >= 2).collect();
         }
         if !cands.is_empty() {
-            let i = cands[t.below(cands.len())];
-            files[i].nul_line = Some(t.below(files[i].lines as usize) as u32);
+            let k = 1 + t.small(3);
+            for _ in 0..k {
+                let i = cands[t.below(cands.len())];
+                files[i].nul_line = Some(t.below(files[i].lines as usize) as u32);
+            }
         }
     }
     files
@@ -322,6 +330,25 @@ pub fn gen_case(t: &mut Tape, n_threads: usize, repeats: u8, sorted: bool) -> Ca
     for f in files.iter_mut() {
         if f.nul_line.is_some() && goes_through_pre(pre.as_ref(), &f.path) {
             f.nul_line = None;
+        }
+    }
+    if root == Root::Multi {
+        // the roots are named in the order of first appearance: half of the
+        // time the plain files come first, so that a worker searches an
+        // explicitly named file before it walks into the directories
+        if t.bool() {
+            files.sort_by_key(|f| f.path.contains('/'));
+        }
+        // and more often than elsewhere some file below a directory is binary
+        if t.bool() {
+            let nested: Vec<usize> = (0..files.len()).filter(|&i| files[i].path.contains('/') && files[i].lines >= 2 && files[i].hit_every > 0 && !goes_through_pre(pre.as_ref(), &files[i].path)).collect();
+            if !nested.is_empty() {
+                let k = 1 + t.small(3);
+                for _ in 0..k {
+                    let i = nested[t.below(nested.len())];
+                    files[i].nul_line = Some(t.below(files[i].lines as usize) as u32);
+                }
+            }
         }
     }
     let top_level: BTreeSet<&str> = files.iter().map(|f| f.path.split('/').next().unwrap()).collect();
